@@ -28,6 +28,7 @@ class Obj:
         self.stamp_len = 0
         self.conf = self.params = None
         self.created_pure = True
+        self.sib = self.sib_obs = None
         if kind == "tc":
             self.o = mk_tc(val)
         elif kind == "tm":
@@ -40,6 +41,27 @@ class Obj:
         else:
             self.o, self.conf, self.params, snap = mk_pdu(kind, cfg, val)
             self.created_pure = _snapshot(self.conf, self.params) == snap     # construction left the caller's objects alone
+            # a sibling built from the SAME caller configuration object: nothing done to self.o may change it
+            self.sib = self._sibling(kind, val)
+            self.sib_obs = None if self.sib is None else (octs(self.sib.pack()), int(self.sib.packet_len))
+
+    def _sibling(self, kind, val):
+        """second object of the same class constructed from the caller's very same PduConfig object"""
+        from spacepackets.cfdp import pdu as P
+        from spacepackets.cfdp.defs import ConditionCode
+        try:
+            if kind == "nak":
+                return P.NakPdu(self.conf, _i(val["start"]), _i(val["end"]), [(_i(s), _i(e)) for s, e in val["segs"]])
+            if kind == "keepalive":
+                return P.KeepAlivePdu(self.conf, _i(val["progress"]))
+            if kind == "eof":
+                return P.EofPdu(self.conf, bytes(val["checksum"]), _i(val["size"]), None, ConditionCode(val["cond"]))
+            if kind == "filedata":
+                from spacepackets.cfdp.pdu.file_data import FileDataParams
+                return P.FileDataPdu(self.conf, FileDataParams(bytes(val["data"]), _i(val["offset"]), None))
+        except Exception:  # noqa
+            return None
+        return None
 
     # -- calls ------------------------------------------------------------------
     def pack(self):
@@ -73,7 +95,11 @@ class Obj:
                 self.o = pdu_class(k).unpack(raw)
         elif a == "set":
             f, x = ev["f"], ev["x"]
-            if k == "tc":
+            if f == "apid":
+                o.apid = x
+            elif f == "seq":
+                o.seq_count = x
+            elif k == "tc":
                 o.app_data = bytes(x)
             elif k == "tm":
                 o.tm_data = bytes(x)
@@ -109,7 +135,14 @@ class Obj:
         k, o = self.kind, self.o
         before = copy.deepcopy(o) if k != "uslp" else None
         snap = None if self.conf is None else _snapshot(self.conf, self.params)
+        # the generic space-packet view is taken BEFORE this observation's pack(): a CRC / length cached by an earlier pack
+        # must not survive a setter
+        spv = octs(o.to_space_packet().pack()) if k in ("tc", "tm") else None
         raw = octs(self.pack())
+        spview = True if spv is None else spv == raw
+        sibling = True
+        if self.sib is not None:
+            sibling = (octs(self.sib.pack()), int(self.sib.packet_len)) == self.sib_obs and self.sib_obs[1] == len(self.sib_obs[0])
         again = octs(self.pack()) == raw
         eq = True if before is None else bool(o == before) and bool(before == o)
         if k in ("tc", "tm"):
@@ -128,7 +161,8 @@ class Obj:
                 v["hdr"]["flen"] = dst["cached"]
             fr = Obj(k, dst["cfg"], v)
             fresh = octs(fr.pack()) == raw
-        return {"octets": raw, "plen": plen, "cached": cached, "again": again, "eq": eq, "caller": caller, "fresh": fresh}
+        return {"octets": raw, "plen": plen, "cached": cached, "again": again, "eq": eq, "caller": caller, "fresh": fresh,
+                "spview": spview, "sibling": sibling}
 
 
 def compare(exp, obs):
@@ -148,6 +182,10 @@ def compare(exp, obs):
         return "pack.eq"
     if not obs["caller"]:
         return "caller"
+    if not obs["spview"]:
+        return "spacepacket.view"
+    if not obs["sibling"]:
+        return "sibling"
     return None
 
 
@@ -295,6 +333,11 @@ def rnd_event(rng, kind):
     if r < 0.24:
         return {"a": "reload"}
     if kind in ("tc", "tm"):
+        c = rng.random()
+        if c < 0.25:
+            return {"a": "set", "f": "apid", "x": rng.randrange(2048)}
+        if c < 0.45 and kind == "tc":
+            return {"a": "set", "f": "seq", "x": rng.randrange(16384)}
         return {"a": "set", "f": "data", "x": rb(rng, rng.choice([0, 1, 2, 17, 300]))}
     if kind == "uslp":
         return {"a": "framelen"} if rng.random() < 0.4 else {"a": "set", "f": "tfdz", "x": rb(rng, rng.choice([0, 1, 5, 60]))}
